@@ -14,6 +14,19 @@ Proof. intros H. apply Z.land_ones, H. Qed.
 Lemma norm_mod sg w z : 0 <= w -> norm sg w z = (let m := z mod 2 ^ w in if sg && (2 ^ (w - 1) <=? m) then m - 2 ^ w else m).
 Proof. intros H. unfold norm. now rewrite umod_mod. Qed.
 Definition in_T (sg : bool) (w z : Z) : bool := if sg then (- 2 ^ (w - 1) <=? z) && (z <? 2 ^ (w - 1)) else (0 <=? z) && (z <? 2 ^ w).
+Lemma norm_id sg w z : 0 < w -> in_T sg w z = true -> norm sg w z = z.
+Proof.
+  intros Hw H. rewrite norm_mod by lia. cbv zeta. unfold in_T in *.
+  assert (P : 2 ^ w = 2 * 2 ^ (w - 1)) by (replace w with (Z.succ (w - 1)) at 1 by lia; apply Z.pow_succ_r; lia).
+  assert (Q : 0 < 2 ^ (w - 1)) by (apply Z.pow_pos_nonneg; lia).
+  destruct sg; cbn [andb] in *.
+  - apply andb_true_iff in H as [H1 H2]. apply Z.leb_le in H1. apply Z.ltb_lt in H2.
+    destruct (Z_lt_le_dec z 0).
+    + replace (z mod 2 ^ w) with (z + 2 ^ w) by (apply Z.mod_unique with (-1); lia).
+      replace (2 ^ (w - 1) <=? z + 2 ^ w) with true by (symmetry; apply Z.leb_le; lia). lia.
+    + rewrite Z.mod_small by lia. replace (2 ^ (w - 1) <=? z) with false by (symmetry; apply Z.leb_gt; lia). reflexivity.
+  - apply andb_true_iff in H as [H1 H2]. apply Z.leb_le in H1. apply Z.ltb_lt in H2. apply Z.mod_small; lia.
+Qed.
 
 (* shifts as the compiler implements them on T: << wraps, >> is arithmetic for signed T (Z's floor division) *)
 Definition shl (sg : bool) (w x s : Z) : Z := norm sg w (x * 2 ^ s).
